@@ -2,6 +2,7 @@
   C04 — sum, difference, negation, involutions and grade selection act blade-wise.
 -/
 import Kingdon.Lemmas.Linear
+import Kingdon.Lemmas.CfgAlgebra
 namespace Kingdon.C04
 open Finsupp
 variable {α : Type} [CommRing α]
@@ -17,5 +18,33 @@ theorem involutions_bladewise (gs : List Nat) (x : MV α) :
 /-- each involution is an involution -/
 theorem involution_involutive (gs : List Nat) (x : MV α) : involutions gs (involutions gs x) = x :=
   involutions_involutive gs x
+
+/-- reverse multiplies grade k by (-1)^(k(k-1)/2) -/
+theorem reverse_sign (k : Nat) : involSign [2, 3] k = (-1 : Int) ^ (popcount k * (popcount k - 1) / 2) :=
+  involSign_reverse k
+/-- grade involution multiplies grade k by (-1)^k -/
+theorem involute_sign (k : Nat) : involSign [1, 3] k = (-1 : Int) ^ (popcount k) := involSign_involute k
+/-- Clifford conjugation multiplies grade k by (-1)^(k(k+1)/2) -/
+theorem conjugate_sign (k : Nat) : involSign [1, 2] k = (-1 : Int) ^ (popcount k * (popcount k + 1) / 2) :=
+  involSign_conjugate k
+
+/-- reverse is an anti-automorphism of the geometric product, in every admissible configuration -/
+theorem reverse_is_antiautomorphism (c : Cfg) (h : c.admissible = true) (a b : ℕ →₀ α)
+    (ha : InRange c a) (hb : InRange c b) :
+    lin (involSign [2, 3]) (clMulS c.computeSign a b) =
+      clMulS c.computeSign (lin (involSign [2, 3]) b) (lin (involSign [2, 3]) a) :=
+  reverse_antiaut c (Cfg.adm_of_admissible c h) a b ha hb
+
+theorem conjugate_is_antiautomorphism (c : Cfg) (h : c.admissible = true) (a b : ℕ →₀ α)
+    (ha : InRange c a) (hb : InRange c b) :
+    lin (involSign [1, 2]) (clMulS c.computeSign a b) =
+      clMulS c.computeSign (lin (involSign [1, 2]) b) (lin (involSign [1, 2]) a) :=
+  conjugate_antiaut c (Cfg.adm_of_admissible c h) a b ha hb
+
+theorem involute_is_automorphism (c : Cfg) (h : c.admissible = true) (a b : ℕ →₀ α)
+    (ha : InRange c a) (hb : InRange c b) :
+    lin (involSign [1, 3]) (clMulS c.computeSign a b) =
+      clMulS c.computeSign (lin (involSign [1, 3]) a) (lin (involSign [1, 3]) b) :=
+  involute_aut c (Cfg.adm_of_admissible c h) a b ha hb
 
 end Kingdon.C04
